@@ -46,6 +46,9 @@ func vC14Run(bkt *vBucket, scenario int) ([]vRow, error, int64) {
 	case 1: // writable open (merge-on-open commit) + scan
 		r, err := vOpen(bkt.client(1), vTableOpts{bf: 2}, 500)
 		if err != nil {
+			// nothing is left behind that a later garbage collection would
+			// trip over (the other handles alive here are committed)
+			symRunFinalizers()
 			return nil, err, 0
 		}
 		rows, err := vScan(r)
@@ -88,6 +91,21 @@ func vC14Run(bkt *vBucket, scenario int) ([]vRow, error, int64) {
 		}
 		rows, err := vScanIdx(r, "desc 2", []interface{}{int64(100)})
 		return rows, err, 0
+	case 7: // open, UPDATE an existing row, commit, scan
+		r, err := vOpen(bkt.client(1), vTableOpts{bf: 2}, 500)
+		if err != nil {
+			return nil, err, 0
+		}
+		if err := r.Update(vAt(1000), int64(3), map[int]interface{}{1: int64(99)}); err != nil {
+			r.Tree.Root.Cancel()
+			return nil, err, 0
+		}
+		if err := r.Commit(vCtx); err != nil {
+			r.Tree.Root.Cancel()
+			return nil, err, 0
+		}
+		rows, err := vScan(r)
+		return rows, err, 3
 	case 6: // a transaction: begin, insert, commit (the caller rolls back when it fails)
 		r, err := vOpen(bkt.client(1), vTableOpts{bf: 2}, 500)
 		if err != nil {
@@ -115,7 +133,7 @@ var vC14CommitFailed bool
 
 func VerifH_C14_faults() {
 	vC14Handle = nil
-	scenario := symChoice("scenario", 7)
+	scenario := symChoice("scenario", 8)
 	unmerged := symChoice("unmerged", 2) == 1
 	// reference: fault-free
 	ref := vC14Bucket(unmerged)
@@ -171,6 +189,9 @@ func VerifH_C14_faults() {
 		for _, a := range after {
 			if symDeepEq(a.k, c.k) {
 				found = true
+				if scenario == 7 && symDeepEq(c.k, int64(3)) {
+					continue // the row the scenario updates (an update that reported failure may still have been stored)
+				}
 				symAssert(symDeepEq(a.b, c.b), "committed-row-unchanged-after-fault")
 			}
 		}
